@@ -552,6 +552,6 @@ func TestEchConnHistories(t *testing.T) {
 	w.Write(Ev{"summary": true, "cases": len(cases), "bad": bad})
 	if hung.Load() > 0 { // spinning goroutines cannot be stopped
 		w.Close()
-		os.Exit(0)
+		exitNow()
 	}
 }
